@@ -846,4 +846,103 @@ theorem sim (B : Nat) (hA : ApplyCase B) : ∀ (fm fr : Nat) (sr : St) (sm : MSt
               · rw [sh.e]; exact h.me
               · rw [sh.s]; exact h.ms
 
+/-! ### whole runs -/
+
+/-- outcome of a whole run of the model against the reference's -/
+def RunOut (ro : Res) (mo : Except Err (Nat × Val × Ctr)) : Prop :=
+  match ro, mo with
+  | .ok (c, t), .ok (c', v, _) => c = c' ∧ v.erase = t
+  | .error _, .error _ => True
+  | .error e, .ok _ => BadR e
+  | .ok _, .error e' => BadM (.err e')
+
+/-- **whole runs on the core fragment**, given the `Apply` position -/
+theorem core_run_agree (prog env : Tree) (budget fuel fuel' : Nat) (hA : ApplyCase (effBudget budget))
+    (ro : Res) (mo : Except Err (Nat × Val × Ctr))
+    (hr : Ref.runWith coreAd fuel' prog env (Adapter.u64Budget budget) = some ro)
+    (hm : modelRun fuel prog env budget = some mo) : RunOut ro mo := by
+  rw [runWith_budget] at hr
+  obtain ⟨c, hc⟩ := ghost_ok
+  unfold modelRun runProgram at hm
+  rw [hc] at hm
+  simp only at hm
+  cases fuel' with
+  | zero => simp [rloop_zero] at hr
+  | succ fr =>
+    have hrr : Ref.runLoop coreAd (some (effBudget budget)) (fr + 1)
+        { opStack := [.eval], valueStack := [.pair prog env], depth := 1 } 0 =
+        rAfter (effBudget budget) fr 0 (evalOp coreAd { opStack := [], valueStack := [.pair prog env], depth := 1 }) := by
+      simp only [Ref.runLoop, rAfter]
+      cases evalOp coreAd _ with
+      | error e => rfl
+      | ok r => rfl
+    rw [hrr] at hr
+    have hst := (eval_agree [] (by simp) (Val.ofTree prog) (Val.ofTree env) (ofTree_wf _) (ofTree_wf _)
+      { opStack := [], valueStack := [.pair prog env], depth := 1 } { ctr := c } rfl
+      (by simp [ofTree_erase, valsR]) rfl rfl rfl rfl rfl 0 (effBudget budget)).to'
+    have heb : (if (budget == 0) = true then U64_MAX else budget) = effBudget budget := rfl
+    rw [heb] at hm
+    cases hev : evalPair {} dial { ctr := c } (Val.ofTree prog) (Val.ofTree env) with
+    | error e =>
+      rw [hev] at hst
+      have hev' : evalPair {} (chiaDialect {} Proto.noExtra 0) { ctr := c } (Val.ofTree prog) (Val.ofTree env) = .error e := hev
+      rw [hev'] at hm
+      cases e with
+      | unsupported =>
+        simp at hm
+      | err e' =>
+        simp only [Option.some.injEq] at hm
+        subst hm
+        cases hro : evalOp coreAd { opStack := [], valueStack := [.pair prog env], depth := 1 } with
+        | error er => rw [hro] at hr; simp only [rAfter, Option.some.injEq] at hr; subst hr; trivial
+        | ok r =>
+          rw [hro] at hst hr
+          obtain ⟨k, st'⟩ := r
+          rcases hst with hb | ⟨hgt, hg⟩
+          · cases ro with
+            | error _ => trivial
+            | ok _ => exact hb
+          · simp only [rAfter, effectiveMax, hg] at hr
+            rw [if_pos hgt] at hr
+            simp only [Option.some.injEq] at hr
+            subst hr; trivial
+    | ok r =>
+      obtain ⟨k, s1⟩ := r
+      have hev' : evalPair {} (chiaDialect {} Proto.noExtra 0) { ctr := c } (Val.ofTree prog) (Val.ofTree env) = .ok (k, s1) := hev
+      rw [hev'] at hm
+      simp only at hm
+      rw [hev] at hst
+      cases hml : Interp.runLoop {} (chiaDialect {} Proto.noExtra 0) (effBudget budget) fuel s1 k with
+      | none => rw [hml] at hm; simp at hm
+      | some ml =>
+        rw [hml] at hm
+        have hml' : mAfter (effBudget budget) fuel 0 (.ok (k, s1)) = some ml := by
+          simp only [mAfter, Nat.zero_add]; exact hml
+        have hlo := after_agree (fun fr' sr' sm' cost' ro mo => sim (effBudget budget) hA fuel fr' sr' sm' cost' ro mo)
+          hst hr hml'
+        cases ml with
+        | error e =>
+          cases e with
+          | unsupported => simp at hm
+          | err e' =>
+            simp only [Option.some.injEq] at hm
+            subst hm
+            cases ro with
+            | error _ => trivial
+            | ok _ => exact hlo
+        | ok r2 =>
+          obtain ⟨cf, sf⟩ := r2
+          simp only at hm
+          cases ro with
+          | error er =>
+            cases mo with
+            | error _ => trivial
+            | ok _ => exact hlo
+          | ok rr =>
+            obtain ⟨cr, tr⟩ := rr
+            obtain ⟨rfl, v, rest, hv, hve⟩ := hlo
+            simp only [MState.pop, hv, Option.some.injEq] at hm
+            subst hm
+            exact ⟨rfl, hve⟩
+
 end Clvm.Ref
